@@ -272,9 +272,10 @@ def dot_check(tl, ad, acts, vx, vy):
     rhs = sum(vx.get(k, 0) * asy.get(k, 0) for k in keys)
     if lhs != rhs:
         return {"kind": "inner-product", "lhs_Ax_y": lhs, "rhs_x_Aty": rhs}
-    for k, v in vy.items():
-        if k[0] not in acts and k[0] not in LOOPVARS and asy.get(k, 0) != v:
-            return {"kind": "passive-changed-by-adjoint", "loc": k, "before": v, "after": asy.get(k, 0)}
+    # passive data: the adjoint must treat it exactly as the tangent-linear code does (DO variables apart)
+    for k in set(list(ax) + list(asy)):
+        if k[0] not in acts and k[0] not in LOOPVARS and asy.get(k, 0) != ax.get(k, 0):
+            return {"kind": "passive-data-differs", "loc": k, "after_tl": ax.get(k, 0), "after_adjoint": asy.get(k, 0)}
     for k, v in vx.items():
         if k[0] not in acts and k[0] not in LOOPVARS + ["p1"] and ax.get(k, 0) != v:
             return {"kind": "passive-changed-by-tl", "loc": k, "before": v, "after": ax.get(k, 0)}
